@@ -70,8 +70,8 @@ BrSeq == [i \in 1..Cardinality(brs) |-> LET b == SeqOfSet(brs, BRank)[i] IN
 \* the graph as the rule module sees it
 G == [mode |-> Mode, nodes |-> NodeSeq, edges |-> EdgeSeq, branches |-> BrSeq]
 
-Preds(n) == C!CtrlPreds(G, n)
-Succs(n) == {m \in Nodes \cup {END} : n \in C!CtrlPreds(G, m)}
+Preds(n) == {e[1] : e \in {x \in edges : x[2] = n}} \cup {b.from : b \in {x \in brs : n \in x.ends}}      \* = C!CtrlPreds(G, n)
+Succs(n) == {m \in Nodes \cup {END} : n \in Preds(m)}
 Level(n) == C!LevelOf(G, n)
 Before(x, y) == x \in C!DepOf(G, y)
 RunNodes == C!RunSet(G)
